@@ -17,6 +17,10 @@ def sh(cmd, **kw):
 def main():
     args = sys.argv[1:]
     tier = 'quick'
+    global REPO
+    lane_env = {}
+    if '--lane' in args:          # --lane <checkout> <work dir>: run against another checkout of the repository (parallel lanes; not for Kani-based checks)
+        i = args.index('--lane'); REPO = args[i + 1]; lane_env = {'VERIF_REPO': args[i + 1], 'VERIF_WORK': args[i + 2], 'VERIF_NO_SCEN': '1'}; del args[i:i + 3]
     if '--tier' in args:
         i = args.index('--tier'); tier = args[i + 1]; del args[i:i + 2]
     seeds = args or sorted(os.listdir(os.path.join(HERE, 'seeded')))
@@ -37,7 +41,7 @@ def main():
         try:
             for pid in [meta['property']] + list(meta.get('also', [])):
                 t0 = time.time()
-                env = dict(os.environ, VERIF_EVIDENCE_DIR=evdir)
+                env = dict(os.environ, VERIF_EVIDENCE_DIR=evdir, **lane_env)
                 o = subprocess.run(f'./check {pid} --tier {tier}', shell=True, cwd=HERE, capture_output=True, text=True, env=env)
                 keys = sorted(set(re.findall(r'^\s+obligation=\S+ key=(\S+)', o.stdout, re.M)))
                 viol = [l for l in o.stdout.splitlines() if l.startswith('VIOLATION')]
